@@ -151,6 +151,10 @@ def updateStateO (cls : Classifier) (obs : Obs) (s : Store) : Store × Except Ex
 
 def updateState (cls : Classifier) (s : Store) : Store × Except Exc Unit := updateStateO cls Obs.silent s
 
+/-- `self._update_state(); return v` — if the observer raised inside `_update_state`, `v` is never returned -/
+def thenReturn {α : Type} (u : Store × Except Exc Unit) (v : α) : Store × Except Exc α :=
+  (u.1, u.2.map fun _ => v)
+
 /-! ### `consume` -/
 
 /-- Which path of `consume` was taken. -/
